@@ -6,7 +6,7 @@ claims = {
          "Functions not yet under contract are listed in the evidence (coverage.functions_not_under_contract); nothing is claimed about them. Isolation rests on the frame obligations (writes only inside the declared modifies set) and the global-write scan, not on exploring schedules.",
          "contract-based deductive verification: generated safety VCs over go/ssa (bit-vector exact), SMT"),
  "C10": ("proof","Every accumulation step is proved exact against the saturating decimal spec satdec: CSeq, Content-Length, Expires header, Contact expires (saturating at 2^32-1), via loop invariants acc == satdec(digits so far).",
-         "satdec is an uninterpreted specification function whose two unfolding equations are axioms (trusted); q parameter, status code and URI port are covered by C08/C14 clauses when those functions are under contract (see evidence).",
+         "satdec is an uninterpreted specification function whose two unfolding equations are axioms (trusted); the URI port is proved exact in ParseURI (invariant portNo == min(satdec(digits), 65536), postcondition PortNo == satdec(Port digits), 0 without a port); the reply status is the C08 clause; the q parameter goes through pUInt64Val (saturating, flagged).",
          "contract-based deductive verification: loop invariants against a recursive spec function, SMT (QF_ABV + instantiated axioms)"),
  "C02": ("proof","Law RES (resumed == one-shot, DESIGN.md 4.3) is proved, for all buffers, offsets, suspended states and all pairs of lengths L1 <= L2, for the streaming parsers that carry a 'law RES' clause: skipCRLF, skipLWS, skipLine, skipWS/skipToken/skipTokenDelim (scanner form), ParseCSeqVal, ParseUIntVal (and through it ParseExpiresVal), ParseCallIDVal and ParseNameAddrPVal (and through it ParseFromVal, ParseOneContact). Obligations: the suspended state satisfies the precondition of the resumed call, and the resumed and the one-shot run meet within one loop iteration; callee laws are used as hypotheses at matching call sites.",
          "PARTIAL: not yet proved for ParseFLine (RES does not discharge in budget), ParseCLenVal, ParseHdrLine, ParseHeaders, ParseOnePAI, the list wrappers, ParseTokenParam, ParseAllURIParams/Hdrs, SkipQuoted (see evidence for the exact list). The induction from per-iteration obligations to whole runs and from one resume to every chunk schedule is a paper argument (DESIGN.md 4.7). For ParseNameAddrPVal the internal saved offset (soffs) is not compared after an error verdict and inside the loop, after a mechanical check that the loop never reads it.",
@@ -26,6 +26,9 @@ claims = {
  "C20": ("proof","IP4Prefix is proved to accept exactly the dotted-quad grammar (ok <==> ip4At), to stop at the specified end, to report what follows (end / digit / other) and to decode the four bytes exactly; ContainsIP4 is proved sound (the reported span is a dotted quad starting at o with the specified end).",
          "Completeness of ContainsIP4 (no address anywhere ==> not found) is NOT proved: the quantified argument did not discharge; the evidence says so. dst must not share the backing array of buf.",
          "contract-based deductive verification: 16-case loop invariant against a quantifier-free grammar spec, SMT"),
+ "C14": ("proof","ParseURI (one loop, 18 automaton states) carries a per-state loop invariant; the postcondition of an accepted URI is the lossless ordered decomposition: scheme = uri[0:e0) is sip:/sips:/tel: in any letter case with a real ':', user[:pass]@ chained from e0, host (non-empty) chained after it, :port ;params ?headers each starting right after its delimiter byte, the last component ending at len(uri) == returned offset; a host that starts with '[' ends with ']'; no '@' at or after the host; tel: number in User with Host empty; error offsets inside the input. Proved for every byte string up to 65535 bytes.",
+         "Precondition: the PsipURI passed in is zeroed (new or Reset; ParseURI does not clear it). A '@' directly after the scheme (sip:@h) is taken as the first host byte by the code; the no-'@' clause therefore starts one byte after the scheme. For tel: URIs with a user part (tel:a@b) only 'number in User, Host empty, rest chained' is stated. The per-state invariant is long; 36 case runs (state x next byte is '@').",
+         "contract-based deductive verification: loop invariant indexed by automaton state, quantified facts by skolemisation/instantiation, SMT (QF_ABV)"),
  "C18": ("proof","AdjustOffs/Long/Short/Truncate are straight-line 16-bit code: postconditions (moved-by-constant, refused-unchanged, fits-iff-ok, view ends) are proved for all well-formed parsed URIs, all target offsets and span lengths, case-split over the 64 presence patterns of the components.",
          "Precondition uriOK (component order as produced by ParseURI) is assumed here and is the C14 postcondition; Offs+Len <= 65535.",
          "contract-based deductive verification: unary postconditions on straight-line bit-vector code, SMT"),
